@@ -258,6 +258,7 @@ Definition is_str_array (tn : tname) : bool := String.eqb tn T_STRING_ARRAY.
 Definition norm_cfs (s : schema) (f : cfs) : cfs :=
   if is_str_array (cf_type f)
   then mkCfs (cf_type f) (map (fun nv => (fst nv, match snd nv with CColl k l => CColl k (map norm_str l) | v => v end)) (cf_feats f))
+  else if is_array_name (cf_type f) then f         (* other arrays stored as elements of their own: nothing to identify *)
   else mkCfs (cf_type f)
          (map (fun nv => match find (fun fd => String.eqb (fd_xname fd) (fst nv)) (sch_feats s (cf_type f)) with
                          | Some fd => (fst nv, norm_feat s fd (snd nv))
